@@ -12,7 +12,7 @@ BASELINE = ("cd /repo && /venv/bin/python -m pytest -ra -q -p no:cacheprovider -
 CHECKS = {
     "C01": ("exploration",
             "property-based testing (Hypothesis): generated histories x query trees, reference set-algebra evaluator + differential over access paths",
-            "Generated commit/merge/delete histories and query trees; every query is evaluated through ten access paths on the real index and compared, in both directions, with a reference evaluator over the document model and with each other. Sampling of an unbounded space: small corpora (<=60 docs), depth<=4 trees.",
+            "Generated commit/merge/delete histories and query trees; every query is evaluated through ten access paths on the real index and compared, in both directions, with a reference evaluator over the document model and with each other. Sampling of an unbounded space: small corpora (<=60 docs), depth<=4 trees. Sub-checks bigsegment (one segment of 2049-5001 documents) and phrases (all 2-/3-word phrases x slop 1..4 over a 2-3 letter vocabulary with repeated words against the reference chain matcher).",
             "Trusts wv/refquery.py as the documented meaning; FuzzyTerm checked as an interval (variant of edit distance decided in C19); Regex = re.match.",
             "DESIGN.md section 2 C01"),
     "C02": ("fault_enumeration",
@@ -39,7 +39,8 @@ CHECKS = {
             "boundary; at each a fresh rival with unique keys (timeout 0 or 30 ms; plain / with / buffered / async front-end; every n-th in a forked process; nested third writer at generated "
             "boundaries; a bystander process forked while the writer is open) tries to write. The lock monitor must never see two holders, rivals must be refused exactly while the lock is "
             "held (never before their timeout) and admitted otherwise, the lock must be free after all outcomes, the final documents must equal the base plus every successful commit, and "
-            "latest_generation() must have advanced by one per successful commit.",
+            "latest_generation() must have advanced by one per successful commit (delete-only and idle commits included). In some cases the index is re-created in place while the "
+            "main writer is open; the writer attempt that follows must still be refused.",
             "Free-running races of 3-6 unsynchronised processes are not run (they would be judged by the same oracles but are not a function of the seed); the AsyncWriter retry thread is real, its outcome does not depend on timing as long as the lock works.",
             "DESIGN.md section 2 C04"),
     "C05": ("exploration",
@@ -117,7 +118,8 @@ CHECKS = {
             "~4.8M combinations) and the union of the value sets covered by tiered_ranges must equal the interval exactly, using only indexed tiers; to_sortable must be a monotone "
             "bijection. codec: generated 16/32/64-bit ints, floats incl. +-0.0/denormals/inf, Decimals, microsecond datetimes: byte round trip, byte order == value order, column "
             "round trip, tier membership. index: generated fields and value multisets incl. the domain extremes; NumericRange/DateRange results, sortedby order and rejection of "
-            "out-of-domain values are compared with plain comparisons on the values.",
+            "out-of-domain values are compared with plain comparisons on the values. partialdates: every typed date precision YYYY[MM[DD[hh[mm[ss]]]]] over leap / non-leap / century "
+            "years through DATETIME.parse_query / parse_range against documents one microsecond inside and outside the period (enumerated).",
             "exhaustive: true refers to the 8-bit tier space only; wider domains are sampled. Floats are ordered by the IEEE total order on non-NaN values (-0.0 below +0.0); NaN not generated.",
             "DESIGN.md section 2 C13"),
     "C14": ("exploration",
@@ -170,7 +172,7 @@ CHECKS = {
             "exhaustive enumeration over small alphabets (sharded) + property-based testing (Hypothesis) against textbook edit-distance references",
             "small: every query word up to length 5 over {a,b} / 4 over {a,b,c} x d in 0..3 x prefix 0..4 against full and partial lexicons, on a one-segment (automaton) and a "
             "three-segment (brute force) index; terms_within must contain everything within Levenshtein distance and nothing beyond Damerau-Levenshtein distance, and both layouts "
-            "must agree. sampled: generated lexicons over larger alphabets (multi-byte, non-BMP) with frequencies: terms_within, FuzzyTerm hits, and suggest() (existing terms within "
+            "must agree. sampled: generated lexicons over larger alphabets (multi-byte, non-BMP) with frequencies: terms_within, FuzzyTerm hits, correct_query() (index words stay, others become a term within distance and prefix), and suggest() (existing terms within "
             "distance, no duplicates, limit, nothing closer left out, order by distance then frequency). Two recorded findings pinned by the repository's tests are classified narrowly.",
             "exhaustive: true refers to the stated small alphabets/lengths. Where restricted and unrestricted Damerau-Levenshtein disagree either answer is accepted.",
             "DESIGN.md section 2 C19"),
